@@ -23,7 +23,8 @@ def shards(tier, seed):
     if tier == 'thorough':
         return c09.shards(tier, seed)
     return c09.shards(tier, seed, spread=128, cyclic_grids=['b4'],
-                      small=['b1', 'b2', 'b3', 'g4', 's4', 'n4', 'g42', 'n42'])
+                      small=['b1', 'b2', 'b3', 'g4', 's4', 'n4', 'g42', 'n42'],
+                      large=320)
 
 
 def cases(shard):
